@@ -1,3 +1,4 @@
+import XdsVerif.Model.Reg
 import XdsVerif.Model.Flow
 import XdsVerif.Model.Conc
 import XdsVerif.Model.DecodeCE
